@@ -41,6 +41,29 @@ func (s *statusRecorder) IsInterfaceNil() bool { return s == nil }
 type genArg struct {
 	arg    floodPreventers.ArgQuotaFloodPreventer
 	intent string
+	walk   bool // boundary-walking workload: large, non-round quotas
+}
+
+const maxMsgSize = uint64(1) << 32 // the property's domain: message sizes up to 2^32
+
+// largeQuota draws a large value that float32 cannot represent exactly (most of the time)
+func largeQuota(rng *vk.Rand, maxBits int) uint64 {
+	switch rng.Intn(8) {
+	case 0:
+		return (uint64(1) << 24) + uint64(1+2*rng.Intn(50)) // 2^24 + odd
+	case 1:
+		return 100000005
+	case 2:
+		return (uint64(1) << 32) + 300
+	case 3:
+		return (uint64(1) << 40) + 12345
+	case 4:
+		return 100000000 + uint64(rng.Intn(1000))
+	default:
+		bits := 25 + rng.Intn(maxBits-24)
+		v := (uint64(1) << uint(bits-1)) | (rng.U64() & ((uint64(1) << uint(bits-1)) - 1))
+		return v | 1
+	}
 }
 
 func genArgs(rng *vk.Rand) genArg {
@@ -85,6 +108,32 @@ func genArgs(rng *vk.Rand) genArg {
 	default:
 		a.IncreaseFactor = float32(rng.Float())
 	}
+	if rng.Chance(1, 3) {
+		// boundary-walking configs: large non-round byte quotas (reachable with <= 512 messages of 2^32 bytes,
+		// a few unreachable ones up to ~2^62), message quotas that do not bind (also large and non-round)
+		g.walk = true
+		if rng.Chance(1, 8) {
+			a.MaxTotalSizePerPeer = largeQuota(rng, 62)
+		} else {
+			a.MaxTotalSizePerPeer = largeQuota(rng, 41)
+		}
+		switch rng.Intn(3) {
+		case 0:
+			a.BaseMaxNumMessagesPerPeer = uint32(10000 + rng.Intn(90000))
+		case 1:
+			a.BaseMaxNumMessagesPerPeer = uint32(largeQuota(rng, 31))
+		default:
+			a.BaseMaxNumMessagesPerPeer = uint32(1<<24) + uint32(1+2*rng.Intn(50))
+		}
+		switch rng.Intn(10) {
+		case 0, 1, 2, 3, 4, 5:
+			a.PercentReserved = 0
+		case 6, 7:
+			a.PercentReserved = float32(rng.Float() * 10)
+		default:
+			a.PercentReserved = []float32{50, 89.99, 90, 75.5}[rng.Intn(4)]
+		}
+	}
 	if rng.Chance(1, 10) {
 		switch rng.Intn(5) {
 		case 0:
@@ -117,18 +166,24 @@ func quotaAfter(cur uint32, a *floodPreventers.ArgQuotaFloodPreventer, size int)
 func main() {
 	_ = logger.SetLogLevel("*:NONE")
 	r := vk.Start("C42")
-	r.Rule("one case = one constructor config (base quota 1..60, byte quota 1..2^32, reserved percent 0 (40%) / integer / fractional / 90, threshold 0..11, factor 0 / 1 / random; 1 in 10 invalid on purpose) and a history of 150..400 operations: IncreaseLoad(peer of 1..6; size profile of the case: tiny / mixed {0, 1, small, around the byte quota, up to 2^32} / a few messages fill the byte quota), ApplyConsensusSize(-1..40) ~5%, Reset 1..6%; then one concurrent window (4..8 goroutines x 40 messages to 2 peers). Non-trivial = accepted config with at least one rejected and one accepted non-first message; distinct = distinct (quota bucket, byte-quota bucket, reserved class, #peers, saw-reset, saw-quota-change) tuples.")
+	r.Rule("one case = one constructor config (base quota 1..60, byte quota 1..2^32, reserved percent 0 (40%) / integer / fractional / 90, threshold 0..11, factor 0 / 1 / random; 1 in 10 invalid on purpose) and a history of 150..400 operations: IncreaseLoad(peer of 1..6; size profile of the case: tiny / mixed {0, 1, small, around the byte quota, up to 2^32} / a few messages fill the byte quota), ApplyConsensusSize(-1..40) ~5%, Reset 1..6%; 1 in 3 configs instead uses large non-round quotas (bytes: 2^24+odd, 1e8+5, 2^32+300, 2^40+12345, random odd up to 2^41, a few up to 2^62; messages: 1e4..1e5, random odd up to 2^31, 2^24+odd; reserved 0 (60%) / 0..10 / high) with a boundary-walking workload per peer and window: small first message (0..2 bytes), messages of up to 2^32 bytes up to 1..64 bytes below the documented limit, 48 increments of 1..8 bytes across it, then doubling increments beyond it; then one concurrent window (4..8 goroutines x 40 messages to 2 peers). Thorough adds 3 cases that walk a message quota of 2^24+{3,7,11} with 2^24+40 empty messages. Non-trivial = accepted config with at least one rejected and one accepted non-first message; distinct = distinct (quota bucket, byte-quota bucket, reserved class, #peers, saw-reset, saw-quota-change) tuples.")
 	r.Assume(
 		"cacher capacity (1000) exceeds the number of peers, so no quota entry is evicted inside a window",
-		"message sizes and byte quotas <= 2^32 (no uint64 overflow in (100-reserved)*quota)",
+		"message sizes <= 2^32; byte quotas up to ~2^62 (a byte boundary above 2^41 is not reachable with 520 messages and is only configured, not walked)",
 		"the message quota in force is modelled from the constructor arguments and the ApplyConsensusSize calls (base + uint32(float32(size-threshold)*factor)); enforcement is what is checked",
-		"consensus sizes <= 40 and factor <= 3, so the adjusted quota fits uint32",
+		"consensus sizes <= 40, factor <= 3 and base quota < 2^31, so the adjusted quota fits uint32",
+		"the limit that steers the boundary walk is the documented integer formula; the oracle is only the bound on accepted totals",
 	)
 	r.MinShapes(40)
 	nCases := r.N(2000, 30000)
 	var status statusRecorder
 
-	r.Parallel(nCases, func(c *vk.Case) {
+	nMsgWalk := r.N(0, 3)
+	r.Parallel(nCases+nMsgWalk, func(c *vk.Case) {
+		if c.Idx >= nCases {
+			messageQuotaWalk(r, c, c.Idx-nCases)
+			return
+		}
 		rng := c.Rng
 		g := genArgs(rng)
 		cache, err := lrucache.NewCache(1000)
@@ -165,18 +220,23 @@ func main() {
 		}
 		acc := map[core.PeerID]*peerState{}
 		var hist []string
-		log := func(s string) {
-			if len(hist) < 600 {
-				hist = append(hist, s)
+		log := func(s string) { // keeps the first 100 and the last 500 entries
+			if len(hist) >= 600 {
+				copy(hist[100:], hist[101:])
+				hist = hist[:599]
 			}
+			hist = append(hist, s)
 		}
 		detail := func() map[string]interface{} {
 			return map[string]interface{}{"base": a.BaseMaxNumMessagesPerPeer, "maxTotalSize": maxSize, "percentReserved": a.PercentReserved,
 				"increaseThreshold": a.IncreaseThreshold, "increaseFactor": a.IncreaseFactor, "quotaInForce": quota, "history": hist}
 		}
 		// size profile of the case: 0 = tiny messages (the message-count quota binds), 1 = mixed,
-		// 2 = a few messages fill the byte quota
+		// 2 = a few messages fill the byte quota, 3 = boundary walk (large non-round quotas)
 		profile := []int{0, 0, 1, 1, 2}[rng.Intn(5)]
+		if g.walk {
+			profile = 3
+		}
 		genSize := func() uint64 {
 			if profile == 0 {
 				if rng.Chance(1, 6) {
@@ -204,73 +264,142 @@ func main() {
 				return rng.U64() % (maxSize/uint64(1+rng.Intn(20)) + 2)
 			}
 		}
-		resetPct := 1 + rng.Intn(6)
-		nOps := 150 + rng.Intn(251)
 		sawReset, sawQuotaChange := false, false
 		accepted, rejected, acceptedNonFirst := 0, 0, 0
-		for j := 0; j < nOps; j++ {
-			switch x := rng.Intn(100); {
-			case x < resetPct:
-				qfp.Reset()
-				acc = map[core.PeerID]*peerState{}
-				sawReset = true
-				log("Reset")
-				r.Count("resets", 1)
-			case x < resetPct+5:
-				cs := rng.Intn(42) - 1
-				qfp.ApplyConsensusSize(cs)
-				nq := quotaAfter(quota, a, cs)
-				if nq != quota {
-					sawQuotaChange = true
-					r.Count("quota_changes", 1)
-				}
-				quota = nq
-				log(fmt.Sprintf("ApplyConsensusSize(%d) -> quota %d", cs, quota))
-			default:
-				pid := peers[rng.Intn(nPeers)]
-				size := genSize()
-				err := qfp.IncreaseLoad(pid, size)
-				r.Eval(1)
-				s := acc[pid]
-				if err == nil {
-					accepted++
-					if s == nil {
-						s = &peerState{first: size}
-						acc[pid] = s
-					} else {
-						acceptedNonFirst++
-					}
-					s.n++
-					s.bytes += size
-					s.sent++
-					log(fmt.Sprintf("IncreaseLoad(%s,%d) ok (#%d, %d bytes)", pid, size, s.n, s.bytes))
-					mq := uint64(quota)
-					if mq < 1 {
-						mq = 1
-					}
-					if s.n > mq {
-						r.Violation(c.Idx, "messages-over-quota", fmt.Sprintf("peer accepted %d messages in one window, quota in force %d (base %d, reserved %v%%)", s.n, quota, a.BaseMaxNumMessagesPerPeer, a.PercentReserved), detail())
-					}
-					if s.bytes > maxSize+s.first {
-						r.Violation(c.Idx, "bytes-over-quota", fmt.Sprintf("peer accepted %d bytes in one window, byte quota %d + first message %d", s.bytes, maxSize, s.first), detail())
-					}
-					r.Max("max_accepted_messages_per_peer_window", int64(s.n))
-					if s.n == mq && s.n > 1 {
-						r.Count("windows_where_a_peer_reached_the_message_quota", 1)
-					}
-					if s.bytes+1 >= maxSize && s.n > 1 {
-						r.Count("acceptances_at_or_near_the_byte_quota", 1)
-					}
+		// send = one IncreaseLoad plus the oracle on the ACCEPTED totals of the peer's window
+		send := func(pid core.PeerID, size uint64) bool {
+			if size > maxMsgSize {
+				size = maxMsgSize
+			}
+			err := qfp.IncreaseLoad(pid, size)
+			r.Eval(1)
+			s := acc[pid]
+			if err != nil {
+				rejected++
+				log(fmt.Sprintf("IncreaseLoad(%s,%d) rejected", pid, size))
+				if s == nil {
+					r.Violation(c.Idx, "first-message-rejected", fmt.Sprintf("first message of a window (size %d) from %s rejected: %v", size, pid, err), detail())
+					// keep the model aligned: the window has started for this peer
+					acc[pid] = &peerState{first: size}
 				} else {
-					rejected++
-					log(fmt.Sprintf("IncreaseLoad(%s,%d) rejected", pid, size))
-					if s == nil {
-						r.Violation(c.Idx, "first-message-rejected", fmt.Sprintf("first message of a window (size %d) from %s rejected: %v", size, pid, err), detail())
-						// keep the model aligned: the window has started for this peer
-						acc[pid] = &peerState{first: size}
-					} else {
-						s.sent++
+					s.sent++
+				}
+				return false
+			}
+			accepted++
+			if s == nil {
+				s = &peerState{first: size}
+				acc[pid] = s
+			} else {
+				acceptedNonFirst++
+			}
+			s.n++
+			s.bytes += size
+			s.sent++
+			log(fmt.Sprintf("IncreaseLoad(%s,%d) ok (#%d, %d bytes)", pid, size, s.n, s.bytes))
+			mq := uint64(quota)
+			if mq < 1 {
+				mq = 1
+			}
+			if s.n > mq {
+				r.Violation(c.Idx, "messages-over-quota", fmt.Sprintf("peer accepted %d messages in one window, quota in force %d (base %d, reserved %v%%)", s.n, quota, a.BaseMaxNumMessagesPerPeer, a.PercentReserved), detail())
+			}
+			if s.bytes > maxSize+s.first {
+				r.Violation(c.Idx, "bytes-over-quota", fmt.Sprintf("peer accepted %d bytes in one window, byte quota %d + first message %d (excess %d, reserved %v%%)", s.bytes, maxSize, s.first, s.bytes-maxSize-s.first, a.PercentReserved), detail())
+			}
+			r.Max("max_accepted_messages_per_peer_window", int64(s.n))
+			if s.n == mq && s.n > 1 {
+				r.Count("windows_where_a_peer_reached_the_message_quota", 1)
+			}
+			if s.bytes+1 >= maxSize && s.n > 1 {
+				r.Count("acceptances_at_or_near_the_byte_quota", 1)
+			}
+			return true
+		}
+		reset := func() {
+			qfp.Reset()
+			acc = map[core.PeerID]*peerState{}
+			sawReset = true
+			log("Reset")
+			r.Count("resets", 1)
+		}
+		applyConsensus := func() {
+			cs := rng.Intn(42) - 1
+			qfp.ApplyConsensusSize(cs)
+			nq := quotaAfter(quota, a, cs)
+			if nq != quota {
+				sawQuotaChange = true
+				r.Count("quota_changes", 1)
+			}
+			quota = nq
+			log(fmt.Sprintf("ApplyConsensusSize(%d) -> quota %d", cs, quota))
+		}
+		if profile == 3 {
+			// boundary walk: a small first message, large messages (<= 2^32 bytes each) up to just below the byte
+			// limit, then increments of 1..8 bytes across it and doubling increments beyond it. The limit used
+			// to steer the walk is the documented one ((100-reserved)% of the quota, integer arithmetic); the
+			// oracle stays the bound on the accepted totals inside send().
+			windows := 1 + rng.Intn(3)
+			for w := 0; w < windows; w++ {
+				if w > 0 {
+					reset()
+				}
+				if rng.Chance(1, 3) {
+					applyConsensus()
+				}
+				for _, pid := range peers[:1+rng.Intn(minInt(nPeers, 2))] {
+					first := uint64(rng.Intn(3))
+					if rng.Chance(1, 6) {
+						first = uint64(rng.Intn(100))
 					}
+					if !send(pid, first) {
+						continue
+					}
+					target := maxSize
+					if maxSize < uint64(1)<<57 {
+						target = uint64(100-a.PercentReserved) * maxSize / 100
+					}
+					margin := uint64(1 + rng.Intn(64))
+					total := first
+					ok := true
+					bigs := 0
+					for ok && total+margin < target && bigs < 520 {
+						sz := minU64(maxMsgSize, target-margin-total)
+						ok = send(pid, sz)
+						total += sz
+						bigs++
+					}
+					if !ok {
+						r.Count("walks_rejected_before_the_boundary", 1)
+						continue
+					}
+					if total+margin < target {
+						r.Count("walks_boundary_unreachable_within_2^32_messages", 1)
+						continue
+					}
+					r.Count("walks_reaching_the_boundary", 1)
+					for i := 0; ok && i < 48; i++ {
+						ok = send(pid, uint64(1+rng.Intn(8)))
+					}
+					for k := uint(4); ok && k <= 44; k++ {
+						ok = send(pid, uint64(1)<<k) // capped at 2^32 by send
+					}
+					if ok {
+						r.Count("walks_never_rejected", 1)
+					}
+				}
+			}
+		} else {
+			resetPct := 1 + rng.Intn(6)
+			nOps := 150 + rng.Intn(251)
+			for j := 0; j < nOps; j++ {
+				switch x := rng.Intn(100); {
+				case x < resetPct:
+					reset()
+				case x < resetPct+5:
+					applyConsensus()
+				default:
+					send(peers[rng.Intn(nPeers)], genSize())
 				}
 			}
 		}
@@ -349,6 +478,49 @@ func main() {
 	}
 	r.Extra("race_reports", races)
 	r.Finish()
+}
+
+// messageQuotaWalk walks a message quota just above 2^24 (not exactly representable in float32) with empty
+// messages from one peer: accepted messages must stop at the quota.
+func messageQuotaWalk(r *vk.Run, c *vk.Case, which int) {
+	base := uint32(1<<24) + []uint32{3, 7, 11}[which%3]
+	cache, err := lrucache.NewCache(1000)
+	if err != nil {
+		r.Inconclusive("cacher: " + err.Error())
+		return
+	}
+	qfp, err := floodPreventers.NewQuotaFloodPreventer(floodPreventers.ArgQuotaFloodPreventer{Name: "verif-msgwalk", Cacher: cache,
+		BaseMaxNumMessagesPerPeer: base, MaxTotalSizePerPeer: uint64(1) << 62, PercentReserved: 0, IncreaseThreshold: 0, IncreaseFactor: 0})
+	if err != nil {
+		r.Count("message_walk_config_rejected", 1)
+		return
+	}
+	pid := core.PeerID("message-walk-peer")
+	n, rejectedAt := uint64(0), uint64(0)
+	total := uint64(base) + 40
+	for i := uint64(1); i <= total; i++ {
+		if qfp.IncreaseLoad(pid, 0) == nil {
+			n++
+			if n > uint64(base) {
+				r.Violation(c.Idx, "messages-over-quota", fmt.Sprintf("peer accepted %d messages in one window, quota in force %d (large quota walk, reserved 0%%)", n, base),
+					map[string]interface{}{"base": base, "accepted": n, "sent": i})
+				break
+			}
+		} else if rejectedAt == 0 {
+			rejectedAt = i
+		}
+	}
+	r.Eval(1)
+	r.Count("message_quota_walks", 1)
+	r.Max("message_walk_accepted", int64(n))
+	r.Shape(fmt.Sprintf("message-quota-walk base=2^24+%d firstRejectedAt=base+%d", base-(1<<24), int64(rejectedAt)-int64(base)))
+}
+
+func minInt(a, b int) int {
+	if a < b {
+		return a
+	}
+	return b
 }
 
 func minU64(a, b uint64) uint64 {
